@@ -140,6 +140,30 @@ theorem C03_every_listed_snp_accepted {β : Type} (P : Prims β) (hl : Laws P) (
   · rfl
   · simp
 
+/-- The SVSM measurement the document lists is accepted for its configuration, the single-VMSA
+    launch — whether or not a measurement is also listed under one launch VMSA, and whichever other
+    counts the request asked for — and also when no VMSA count is named. -/
+theorem C03_listed_svsm_accepted {β : Type} (P : Prims β) (hl : Laws P) (L : Lifetimes) (cd t0 : Nat) (rots : List Nat)
+    (r : Request) (hp : hasProvenance r) (t : Nat)
+    (hr : (history L t0 rots).root.valid t) (hs : (history L t0 rots).primary.valid t)
+    (s : SevSnp) (hsev : r.sev = some s) (hsv : s.svsm.isEmpty = false) (hne : s.measurements.isEmpty = false)
+    (n : Nat) (hn : n = 1 ∨ n = 0) :
+    verifyEndorsement P cd (endorse P (history L t0 rots) r)
+      ⟨some [(history L t0 rots).root], t, [], some ⟨some s.svsm, n⟩⟩ = true := by
+  apply verify_endorse P hl cd _ (wf_history L t0 rots) r hp t hr hs [] (Or.inl rfl)
+  intro o ho
+  cases ho
+  rcases hn with rfl | rfl
+  · simp [hsev, snp, hne, hsv]
+  · simp [hsev, snp]
+
+/-- Non-vacuity: a document that lists only the 4-VMSA measurement and an SVSM measurement meets the
+    hypotheses, and the pre-check order matters — looking the VMSA count up first would refuse it. -/
+example :
+    let s : SevSnp := ⟨0, 1, [(4, [7])], [9], []⟩
+    s.svsm.isEmpty = false ∧ s.measurements.isEmpty = false ∧ mlookup s.measurements 1 = none ∧
+    snp (some s) ⟨some s.svsm, 1⟩ = true ∧ snp (some s) ⟨some s.svsm, 0⟩ = true := by decide
+
 /-- Every TDX measurement the document lists is accepted for its configuration (the policy derived
     for the row's RAM size admits the row's MRTD), for well-formed tables (48-byte MRTDs). -/
 theorem C03_every_listed_mrtd_accepted (rows : List TdxRow) (hwf : ∀ x ∈ rows, x.mrtd.length = mrTdSize)
